@@ -149,6 +149,8 @@ pub struct Dfa<'a> {
     pub config: &'a RegExpConfig,
 }
 pub struct GraphemeCluster<'a> { pub graphemes: Vec<Grapheme>, pub config: &'a RegExpConfig }
+pub uninterp spec fn ascii_fold(s: Seq<char>) -> Seq<char>;
+pub assume_specification [str::eq_ignore_ascii_case] (a: &str, b: &str) -> (r: bool) ensures r == (ascii_fold(a@) == ascii_fold(b@));
 // std::cmp::{min, max} at u32 (dfa.rs imports them by name): specified stand-ins
 #[verifier::external_body] pub fn min(a: u32, b: u32) -> (r: u32) ensures r == (if a <= b { a } else { b }) { unimplemented!() }
 #[verifier::external_body] pub fn max(a: u32, b: u32) -> (r: u32) ensures r == (if a >= b { a } else { b }) { unimplemented!() }
